@@ -1630,3 +1630,9 @@ fn find_used_blobs<S>(
 
     Ok(ids)
 }
+
+#[cfg(rustic_core_verif)]
+#[allow(missing_docs, unused_imports, dead_code, clippy::all, clippy::pedantic, clippy::nursery)]
+pub mod verif_hooks {
+    use super::*;
+}
